@@ -231,6 +231,74 @@ def run_fault(scn, seed, plan=None, fault_mode=False, recover_rounds=None, debug
     return tr
 
 
+def run_resubmit(scn, seed, flag_sets, debug=False):
+    """Run a submission to completion, then resubmit-jobs (once per entry of flag_sets), each followed by the recovery."""
+    r = Run(scn, seed, debug=debug)
+    try:
+        r.submit()
+        r.drain()
+        r.recover(how="try-submit-jobs")
+        for flags in flag_sets:
+            r.recoveries = 0
+            r.user("resubmit-jobs", r.w.out, *flags)
+            r.drain()
+            r.recover(how="try-submit-jobs")
+        r.w.ev(e="end", recoveries=r.recoveries, full=True)
+    finally:
+        tr = r.finish()
+    return tr
+
+
+def run_resubmit_incomplete(scn, seed, variant, debug=False):
+    """resubmit-jobs on a submission that is not complete.
+    variant 'quiet': after submit-jobs, batches still pending, nobody is submitter.
+    variant 'held-other' / 'held-same': while a compute node's try-submit-jobs holds the submitter role (parked right
+    after its promotion); resubmit-jobs is run from another host / from the same host."""
+    r = Run(scn, seed, debug=debug)
+    w = r.w
+    try:
+        p = r.submit()
+        while p.alive:
+            w.do(("step", p.pid))
+        host = "login"
+        if variant != "quiet":
+            # start batches and run until some try-submit-jobs process holds the role
+            guard = 0
+            holder = None
+            while holder is None and guard < 3000:
+                guard += 1
+                st = w.last_status.get(w.out)
+                if st and st["sub"] and not os.path.exists(os.path.join(w.out, "cluster_config.json.lock")):
+                    cands = [q for q in w.procs if q.alive and q.label == "try-submit-jobs" and q.host == st["sub"]]
+                    if cands:
+                        holder = cands[0]
+                        break
+                moves = [m for m in w.enabled() if not (m[0] == "step" and w.spinning(w.proc(m[1])))] or w.enabled()
+                if not moves:
+                    break
+                w.do(moves[r.rng.randrange(len(moves))])
+            if holder is not None:
+                host = holder.host if variant == "held-same" else "login"
+        q = r.user("resubmit-jobs", w.out, host=host)
+        guard = 0
+        while q.alive and guard < 500:       # only the resubmit process moves (everything else is held)
+            guard += 1
+            if w._step_enabled(q):
+                w.do(("step", q.pid))
+            else:
+                qm = [m for m in w.quiescent_moves() if m[1] == q.pid]
+                if not qm:
+                    break
+                w.do(qm[0])
+        # afterwards the world goes on
+        r.drain()
+        r.recover(how="try-submit-jobs")
+        w.ev(e="end", recoveries=r.recoveries, full=True)
+    finally:
+        tr = r.finish()
+    return tr
+
+
 def run_first_round(scn, seed, debug=False):
     """submit-jobs alone: the first submitter round (no batch starts). For dry runs this is the whole run."""
     r = Run(scn, seed, debug=debug)
